@@ -49,7 +49,9 @@ import (
 	"github.com/ozontech/seq-db/logger"
 	"github.com/ozontech/seq-db/metric/stopwatch"
 	"github.com/ozontech/seq-db/parser"
+	pstore "github.com/ozontech/seq-db/pkg/storeapi"
 	"github.com/ozontech/seq-db/seq"
+	"github.com/ozontech/seq-db/storeapi"
 	"github.com/ozontech/seq-db/verifhook"
 
 	"verifharness/internal/vh"
@@ -779,6 +781,48 @@ func parseInts(s string) []int {
 	return r
 }
 
+// storeBulk sends one bulk through the store's Bulk handler (set up by childMain)
+var storeBulk func(ctx context.Context, b int, docs, metas []byte) error
+
+// childCancelled sends bulk b under a context that is of no use any more:
+//
+//	mode 1: cancelled before the call; mode 2: deadline already passed;
+//	mode 3: the writer fraction is being sealed in place (held at c07.pf.seal.begin, so every try is refused) and the
+//	        context is cancelled when the third refusal is observed - the handler leaves its retry loop through ctx.Done().
+//
+// Whatever the handler answers is printed: an OK is the store's acknowledgement.
+func childCancelled(fm *fracmanager.FracManager, b, mode int, say func(string, ...any)) {
+	docs, metas := bulkBlocks(b)
+	ctx, cancel := context.WithCancel(context.Background())
+	defer cancel()
+	switch mode {
+	case 1:
+		cancel()
+	case 2:
+		var c2 context.CancelFunc
+		ctx, c2 = context.WithTimeout(ctx, 0)
+		defer c2()
+	case 3:
+		held := make(chan struct{})
+		var fails atomic.Int64
+		verifhook.Set(func(name, _ string, _ []int64) {
+			switch name {
+			case "c07.pf.seal.begin":
+				close(held)
+				select {} // the seal never gets further: the process ends with the fraction read-only
+			case "c07.pf.append.fail":
+				if fails.Add(1) == 3 {
+					cancel()
+				}
+			}
+		})
+		go fracmanager.VerifC01SealActiveInPlace(fm)
+		<-held
+	}
+	err := storeBulk(ctx, b, docs, metas)
+	say("XRES %d %s", b, map[bool]string{true: "ok", false: "err"}[err == nil])
+}
+
 // child <dir> <verify ids> <ingest ids> <crash bulk>:<point>   (crash "-" = none)
 func childMain(args []string) {
 	logger.SetLevel(zapcore.FatalLevel)
@@ -795,6 +839,13 @@ func childMain(args []string) {
 		os.Exit(3)
 	}
 	say("UP")
+	// every bulk enters the store through the real handler GrpcV1.Bulk (what a proxy or the in-memory client calls)
+	must(os.MkdirAll(dir+"-async", 0o777))
+	grpcH := storeapi.VerifC01Grpc(fm, dir+"-async", 64)
+	storeBulk = func(ctx context.Context, b int, docs, metas []byte) error {
+		_, err := grpcH.Bulk(ctx, &pstore.BulkRequest{Count: int64(len(bulkDocs(b))), Docs: docs, Metas: metas})
+		return err
+	}
 	searcher := fracmanager.NewSearcher(1, fracmanager.SearcherCfg{})
 	fetcher := fracmanager.NewFetcher(1)
 	ctx := context.Background()
@@ -871,7 +922,7 @@ func childMain(args []string) {
 	}
 	for _, b := range ingest {
 		docs, metas := bulkBlocks(b)
-		if err := fm.Append(ctx, docs, metas); err != nil {
+		if err := storeBulk(ctx, b, docs, metas); err != nil {
 			say("APPENDERR %d %v", b, err)
 			os.Exit(4)
 		}
@@ -883,6 +934,16 @@ func childMain(args []string) {
 		_, err := fmt.Sscanf(args[4], "%d+%d", &a, &b)
 		must(err)
 		childConcurrent(fm, a, b, say)
+	}
+	if len(args) > 6 && args[6] != "-" {
+		var b, mode int
+		_, err := fmt.Sscanf(args[6], "%d:%d", &b, &mode)
+		must(err)
+		childCancelled(fm, b, mode, say)
+		if mode == 3 {
+			say("DONE")
+			os.Exit(0)
+		}
 	}
 	if len(args) > 5 && args[5] == "seal" {
 		fm.SealForcedForTests()
@@ -916,7 +977,7 @@ func childMain(args []string) {
 		})
 		docs, metas := bulkBlocks(b)
 		say("BLOCKS %d %d", len(docs), len(metas))
-		if err := fm.Append(ctx, docs, metas); err == nil { // the point does not exist (any more): the bulk went through
+		if err := storeBulk(ctx, b, docs, metas); err == nil { // the point does not exist (any more): the bulk went through
 			fm.WaitIdle()
 			say("ACK %d", b)
 		}
@@ -953,10 +1014,10 @@ func childConcurrent(fm *fracmanager.FracManager, a, b int, say func(string, ...
 	var wg sync.WaitGroup
 	var errA, errB error
 	wg.Add(1)
-	go func() { defer wg.Done(); errA = fm.Append(ctx, da, ma) }()
+	go func() { defer wg.Done(); errA = storeBulk(ctx, a, da, ma) }()
 	<-aAtDocs
 	wg.Add(1)
-	go func() { defer wg.Done(); errB = fm.Append(ctx, db, mb); bReturned.Store(true) }()
+	go func() { defer wg.Done(); errB = storeBulk(ctx, b, db, mb); bReturned.Store(true) }()
 	how := ""
 	for how == "" {
 		switch {
@@ -1002,6 +1063,7 @@ func parkedOnWriterLock() bool {
 }
 
 type round struct {
+	xb, xm int    // bulk xb sent under a dead context, mode xm (0 = none), see childCancelled
 	seal   bool   // after the ingestion of this round the active fraction is sealed (SealForcedForTests)
 	par    [2]int // two bulks appended concurrently (0 = none), see childConcurrent
 	ingest []int
@@ -1026,6 +1088,9 @@ func (s scenario) String() string {
 		if r.seal {
 			p += ",s"
 		}
+		if r.xm > 0 {
+			p += fmt.Sprintf(",x=%d:%d", r.xb, r.xm)
+		}
 		parts = append(parts, fmt.Sprintf("i=%s,c=%s%s", strings.ReplaceAll(vh.JoinInts(r.ingest), ",", "+"), c, p))
 	}
 	return "hist " + strings.Join(parts, " ")
@@ -1045,6 +1110,10 @@ func parseScenario(line string) (scenario, error) {
 				r.ingest = parseInts(strings.ReplaceAll(kv[2:], "+", ","))
 			case kv == "s":
 				r.seal = true
+			case strings.HasPrefix(kv, "x="):
+				if _, err := fmt.Sscanf(kv[2:], "%d:%d", &r.xb, &r.xm); err != nil {
+					return s, err
+				}
 			case strings.HasPrefix(kv, "p="):
 				if _, err := fmt.Sscanf(kv[2:], "%d+%d", &r.par[0], &r.par[1]); err != nil {
 					return s, err
@@ -1067,12 +1136,12 @@ type childResult struct {
 	stderr string
 }
 
-func runChild(dir string, verify, ingest []int, crash string, par [2]int, seal bool) childResult {
+func runChild(dir string, verify, ingest []int, crash string, par [2]int, seal bool, x string) childResult {
 	self, err := os.Executable()
 	must(err)
 	ctx, cancel := context.WithTimeout(context.Background(), 60*time.Second)
 	defer cancel()
-	cmd := exec.CommandContext(ctx, self, "child", dir, vh.JoinInts(verify), vh.JoinInts(ingest), crash, fmt.Sprintf("%d+%d", par[0], par[1]), map[bool]string{true: "seal", false: "-"}[seal])
+	cmd := exec.CommandContext(ctx, self, "child", dir, vh.JoinInts(verify), vh.JoinInts(ingest), crash, fmt.Sprintf("%d+%d", par[0], par[1]), map[bool]string{true: "seal", false: "-"}[seal], x)
 	var so, se bytes.Buffer
 	cmd.Stdout, cmd.Stderr = &so, &se
 	err = cmd.Run()
@@ -1126,9 +1195,11 @@ func runScenario(s scenario) (findings []finding, tagsOut []string, obs sysObs) 
 	dir, err := os.MkdirTemp("", "c01-sys-")
 	must(err)
 	defer os.RemoveAll(dir)
+	defer os.RemoveAll(dir + "-async")
 	var acked []int
 	unacked := map[int]bool{}
-	debris := "" // class of the earliest crash that left debris and was followed by ingestion
+	deadAcked := map[int]bool{} // acknowledged although the context was cancelled / expired
+	debris := ""                // class of the earliest crash that left debris and was followed by ingestion
 	pendingDebris := ""
 	concurrent := false // two bulks were appended concurrently earlier in the history
 	overlap := false    // a bulk repeated documents of an earlier bulk before bringing new ones
@@ -1173,6 +1244,10 @@ func runScenario(s scenario) (findings []finding, tagsOut []string, obs sysObs) 
 				}
 				continue
 			}
+			if deadAcked[b] && (search != n || bytoken != n || exact != n) {
+				findings = append(findings, finding{"acked-lost/dead-context", fmt.Sprintf("%s: bulk %d was acknowledged by the Bulk handler under a cancelled/expired context and is not in the store: %s", phase, b, l)})
+				continue
+			}
 			if wrong > 0 || extra > 0 {
 				findings = append(findings, finding{"acked-corrupted/" + cls, fmt.Sprintf("%s: acknowledged bulk %d is served with wrong bytes or foreign IDs: %s", phase, b, l)})
 			} else if search != n || bytoken != n || exact != n {
@@ -1214,7 +1289,12 @@ func runScenario(s scenario) (findings []finding, tagsOut []string, obs sysObs) 
 			tagsOut = append(tagsOut, "concurrent-bulks")
 			concurrent = true
 		}
-		res := runChild(dir, known(), r.ingest, crash, r.par, r.seal)
+		x := "-"
+		if r.xm > 0 {
+			x = fmt.Sprintf("%d:%d", r.xb, r.xm)
+			tagsOut = append(tagsOut, fmt.Sprintf("dead-context-%d", r.xm))
+		}
+		res := runChild(dir, known(), r.ingest, crash, r.par, r.seal, x)
 		for _, l := range res.lines {
 			if strings.HasPrefix(l, "CONCURRENT") {
 				tagsOut = append(tagsOut, strings.ReplaceAll(l, " ", ":"))
@@ -1222,6 +1302,17 @@ func runScenario(s scenario) (findings []finding, tagsOut []string, obs sysObs) 
 			if strings.HasPrefix(l, "ACK ") {
 				b, _ := strconv.Atoi(l[4:])
 				acked = append(acked, b)
+			}
+			if strings.HasPrefix(l, "XRES ") {
+				var b int
+				var how string
+				fmt.Sscanf(l, "XRES %d %s", &b, &how)
+				if how == "ok" { // the handler acknowledged a bulk sent under a dead context
+					acked = append(acked, b)
+					deadAcked[b] = true
+				} else {
+					unacked[b] = true
+				}
 			}
 		}
 		if !check(res, fmt.Sprintf("round %d", i+1)) {
@@ -1269,7 +1360,7 @@ func runScenario(s scenario) (findings []finding, tagsOut []string, obs sysObs) 
 			}
 		}
 	}
-	res := runChild(dir, known(), nil, "-", [2]int{}, false)
+	res := runChild(dir, known(), nil, "-", [2]int{}, false, "-")
 	obs.up = check(res, "final restart")
 	obs.bulks = known()
 	for _, l := range res.lines {
@@ -1352,6 +1443,9 @@ func siteOf(class string) string {
 	if strings.HasSuffix(class, "/concurrent-bulks") {
 		return "frac/active_writer.go:Write"
 	}
+	if strings.HasSuffix(class, "/dead-context") {
+		return "storeapi/grpc_bulk.go:Bulk"
+	}
 	if strings.HasSuffix(class, "/overlapping-bulks") {
 		return "frac/active_indexer.go:appendWorker"
 	}
@@ -1390,6 +1484,10 @@ func oracleCrashRestart(o vh.Opts, rng *vh.RNG, rep *vh.Report, replayOps []stri
 			scenario{[]round{{ingest: []int{3, 4, 1004}, crash: 5, point: 5, k: 35}, {ingest: []int{1003}, crash: -1}}},
 			scenario{[]round{{ingest: []int{6, 1006}, crash: -1, seal: true}, {ingest: []int{7, 1007}, crash: -1}}},
 			scenario{[]round{{ingest: []int{2, 5}, crash: -1}, {ingest: []int{1002}, crash: -1, seal: true}, {ingest: []int{8}, crash: -1}}},
+			// bulks sent under a cancelled / expired context, and under one that is cancelled between refused tries
+			scenario{[]round{{ingest: []int{1}, crash: -1, xb: 2, xm: 1}, {ingest: []int{3}, crash: -1}}},
+			scenario{[]round{{ingest: []int{4}, crash: -1, xb: 5, xm: 2}, {crash: -1, xb: 6, xm: 1}}},
+			scenario{[]round{{ingest: []int{7, 8}, crash: -1, xb: 9, xm: 3}, {ingest: []int{10}, crash: -1}}},
 			// torn meta tail with a complete header, restart only
 			scenario{[]round{{ingest: []int{1}, crash: 2, point: 5, k: 33}}},
 			scenario{[]round{{crash: 1, point: 5, k: 40}, {crash: -1}}},
@@ -1432,7 +1530,14 @@ func oracleCrashRestart(o vh.Opts, rng *vh.RNG, rep *vh.Report, replayOps []stri
 					rd.ingest = append(rd.ingest, 1000+rd.ingest[rng.Intn(len(rd.ingest))])
 				}
 				rd.seal = rng.Chance(1, 6)
-				if rng.Chance(2, 3) {
+				if rng.Chance(1, 6) {
+					rd.xb, rd.xm = next, rng.Range(1, 3)
+					next++
+					if rd.xm == 3 { // the process ends inside the held seal: nothing else happens in this round
+						rd.seal = false
+					}
+				}
+				if rd.xm != 3 && rng.Chance(2, 3) {
 					rd.crash, rd.point, rd.k = next, rng.Range(1, 7), -1
 					next++
 					if rd.point == 2 || rd.point == 5 {
@@ -1747,6 +1852,126 @@ func chanFwTrace(o vh.Opts, rng *vh.RNG) *vh.Channel {
 	return ch
 }
 
+// ------------------------------------------------------------------ channel bulk.handler: the real GrpcV1.Bulk vs SV.BulkH
+
+// one call of the real handler on a fresh store; what the environment does is scripted:
+//
+//	dead  0: live context; 1: cancelled before the call; 2: deadline already passed
+//	refuse k > 0: the writer fraction is being sealed in place (held), so tries are refused; at the k-th refusal either
+//	        the context is cancelled (thenAck = false) or the store rotates to a fresh fraction (thenAck = true)
+func runHandlerCase(count int, limit uint64, dead, refuse int, thenAck bool) (impl string, tries int) {
+	dir, err := os.MkdirTemp("", "c01-bulkh-")
+	must(err)
+	defer os.RemoveAll(dir)
+	defer os.RemoveAll(dir + "-async")
+	must(os.MkdirAll(dir+"-async", 0o777))
+	fm := fracmanager.NewFracManager(&fracmanager.Config{DataDir: dir, FracSize: 1 << 30, TotalSize: 1 << 40})
+	must(fm.Load(context.Background()))
+	g := storeapi.VerifC01Grpc(fm, dir+"-async", limit)
+	ctx, cancel := context.WithCancel(context.Background())
+	defer cancel()
+	switch dead {
+	case 1:
+		cancel()
+	case 2:
+		var c2 context.CancelFunc
+		ctx, c2 = context.WithTimeout(ctx, 0)
+		defer c2()
+	}
+	var enter, fails atomic.Int64
+	held := make(chan struct{})
+	verifhook.Set(func(name, _ string, _ []int64) {
+		switch name {
+		case "c07.pf.seal.begin":
+			close(held)
+			select {}
+		case "c07.pf.append.enter":
+			enter.Add(1)
+		case "c07.pf.append.fail":
+			if int(fails.Add(1)) == refuse {
+				if thenAck {
+					fm.SealForcedForTests() // the held fraction is empty: this only rotates to a writable one
+				} else {
+					cancel()
+				}
+			}
+		}
+	})
+	defer verifhook.Set(nil)
+	if refuse > 0 {
+		go fracmanager.VerifC01SealActiveInPlace(fm)
+		<-held
+	}
+	docs, metas := bulkBlocks(3)
+	_, err = g.Bulk(ctx, &pstore.BulkRequest{Count: int64(count), Docs: docs, Metas: metas})
+	tries = int(enter.Load())
+	switch {
+	case err == nil:
+		// acknowledged: the documents must be there
+		fm.WaitIdle()
+		res, ferr := fracmanager.NewFetcher(1).FetchDocs(context.Background(), fm.GetAllFracs(), []seq.IDSource{{ID: bulkDocs(3)[0].id}})
+		if ferr != nil || len(res) != 1 || !bytes.Equal(res[0], bulkDocs(3)[0].body) {
+			return "ok-but-not-stored", tries
+		}
+		return fmt.Sprintf("ok %d", tries-1), tries
+	case err == context.Canceled || err == context.DeadlineExceeded:
+		return "err ctx", tries
+	case strings.Contains(err.Error(), "wrong protocol"):
+		return "err proto", tries
+	case strings.Contains(err.Error(), "too many bulk requests"):
+		return "err limit", tries
+	}
+	return "err other: " + err.Error(), tries
+}
+
+func chanBulkHandler(o vh.Opts, rng *vh.RNG) *vh.Channel {
+	ch := vh.NewChannel("bulk.handler", "one call of the real storeapi.GrpcV1.Bulk on a fresh FracManager under a scripted environment: request count 0 "+
+		"or >0, in-flight limit 0 or 64, context live / cancelled before the call / deadline passed / cancelled at the k-th refused try, "+
+		"writer fraction writable / being sealed in place (tries refused) / rotated to a writable one at the k-th refusal; compared with "+
+		"SV.BulkH.doBulk: OK with the index of the acknowledged try (and the document is fetched back), or the kind of error. Exhaustive "+
+		"over the scripted environments with k <= 3 (+ random k in the thorough tier). Non-trivial: at least one try was made or refused")
+	type c struct {
+		count        int
+		limit        uint64
+		dead, refuse int
+		thenAck      bool
+	}
+	var cases []c
+	for _, count := range []int{0, 2} {
+		for _, limit := range []uint64{0, 64} {
+			for dead := 0; dead <= 2; dead++ {
+				cases = append(cases, c{count, limit, dead, 0, false})
+			}
+		}
+	}
+	for k := 1; k <= 3; k++ {
+		cases = append(cases, c{2, 64, 0, k, false}, c{2, 64, 0, k, true}, c{2, 64, 1, k, true})
+	}
+	for i := 0; i < o.Pick(0, 40); i++ {
+		cases = append(cases, c{2, 64, 0, rng.Range(4, 60), rng.Bool()})
+	}
+	for _, x := range cases {
+		impl, tries := runHandlerCase(x.count, x.limit, x.dead, x.refuse, x.thenAck)
+		cx, ak := "-", "-"
+		switch {
+		case x.dead > 0:
+			cx = "0"
+		case x.refuse > 0 && !x.thenAck:
+			cx = strconv.Itoa(x.refuse)
+		}
+		switch {
+		case x.refuse == 0:
+			ak = "0"
+		case x.thenAck:
+			ak = strconv.Itoa(x.refuse)
+		}
+		ch.Add(fmt.Sprintf("bulk.h %d 1 %d %s %s", x.count, x.limit, cx, ak), impl, tries > 0,
+			fmt.Sprintf("dead=%d", x.dead), fmt.Sprintf("refused=%d", min(x.refuse, 4)), "thenAck="+vh.B(x.thenAck))
+	}
+	ch.Exhaustive = true
+	return ch
+}
+
 // ------------------------------------------------------------------ main
 
 // limitAddressSpace makes an absurd allocation fail at once instead of keeping the kernel busy mapping terabytes
@@ -1802,6 +2027,7 @@ func main() {
 		{"wp.run", comps, func() { rep.AddChannel(chanRun(o, rngFor("wp.run"), fix), o.Driver) }},
 		{"index", comps, func() { rep.AddChannel(chanIndex(o, rngFor("index"), fix, 1), o.Driver) }},
 		{"index.k", comps, func() { rep.AddChannel(chanIndex(o, rngFor("index.k"), fix, 4), o.Driver) }},
+		{"bulk.handler", o.Replay == "", func() { rep.AddChannel(chanBulkHandler(o, rngFor("bulk.handler")), o.Driver) }},
 		{"fw.trace", o.Replay == "", func() { rep.AddChannel(chanFwTrace(o, rngFor("fw.trace")), o.Driver) }},
 		{"fw.groupcommit", o.Replay == "" || hasPrefix(replayOps, "fw "), func() { rep.AddOracle(oracleGroupCommit(o, rngFor("fw.groupcommit"), rep)) }},
 	}
